@@ -86,10 +86,26 @@ RuleAgrees(z) ==
   IF T = {} THEN {"OutOfRange", "TimeZone.InconsistentExtraRule"}
   ELSE IF TypeOfTr(z, NTr(z)) \in T THEN (IF Cardinality(T) = 1 THEN {} ELSE {"ok-or", "TimeZone.InconsistentExtraRule"})
   ELSE {"TimeZone.InconsistentExtraRule"}
+\* A malformed leap table as the zone's ONLY defect: the instant of the last transition is then not defined, and the trailing-rule
+\* clause can be blamed only if it fails under every reading of that instant (the count itself shifted by at most the largest
+\* correction of the table): if the rule prescribes the last transition's type at SOME reading, the specific error is the leap table's.
+SmallCorr(lp) == \A i \in 1..Len(lp) : lp[i].c > -100000 /\ lp[i].c < 100000
+AbsC(c) == IF c < 0 THEN -c ELSE c
+MaxAbsCorr(lp) == IF lp = <<>> THEN 0 ELSE LET S == {AbsC(lp[i].c) : i \in 1..Len(lp)} IN CHOOSE m \in S : \A x \in S : x <= m
+RuleAgreesSomewhere(z) ==
+  LET u0 == LastT(z) W == 2 + MaxAbsCorr(z.lp)
+      lo == CAddSec(u0, -W) hi == CAddSec(u0, W)
+      bs == IF z.rule.k # "alt" THEN {}
+            ELSE {g \in ({RS(z.rule, y) : y \in Years5(u0)} \cup {RE(z.rule, y) : y \in Years5(u0)}) : CLe(lo, g) /\ CLe(g, hi)}
+      cands == {lo, hi} \cup bs \cup {CAddSec(g, -1) : g \in bs}
+  IN \E u \in cands : TypeOfTr(z, NTr(z)) \in RuleTypesAt(z.rule, z.sum, u)
+LeapOnlyDefect(z) == ZoneErrs14(z) = {"TimeZone.InvalidLeapSecond"} /\ SmallCorr(z.lp) /\ z.rule.k # "none" /\ NTr(z) > 0
+                     /\ ~CLe(LastT(z), CAddSec(I64LoCDS, 200000)) /\ ~CLe(CAddSec(I64HiCDS, -200000), LastT(z))
 \* outcome: set of admissible error kinds; {} = must be accepted; "ok-or" = acceptance also admissible
 ZoneVerdict(z) ==
   LET e == ZoneErrs14(z) hasBoth == z.rule.k # "none" /\ NTr(z) > 0 IN
-  IF e # {} THEN e \cup (IF hasBoth THEN {"TimeZone.InconsistentExtraRule", "OutOfRange"} ELSE {})
+  IF LeapOnlyDefect(z) /\ RuleAgreesSomewhere(z) THEN e
+  ELSE IF e # {} THEN e \cup (IF hasBoth THEN {"TimeZone.InconsistentExtraRule", "OutOfRange"} ELSE {})
   ELSE IF ~hasBoth THEN {}
   ELSE LET ra == RuleAgrees(z) IN
        IF CLe(LastT(z), CAddSec(I64LoCDS, 100000)) \/ CLe(CAddSec(I64HiCDS, -100000), LastT(z)) \/ ~InRange(ToUnix(z.lp, LastT(z)))
